@@ -22,7 +22,11 @@ from ..common import BASE_TRUST, clist, cnat
 IMPORTS = ("From FV Require Import Base.Str Shared.Walks.\n"
            "Definition nextf (g : list (nat * nat)) (x : nat) : option nat := match find (fun p => fst p =? x) g with Some p => Some (snd p) | None => None end.\n"
            "Definition chk_walk (g : list (nat * nat)) (stop : option nat) (n : nat) (start : option nat) (vis : list nat) (b : bool) : bool :=\n"
-           "  match walk (nextf g) stop (n + 1) [] start with Some (v, c) => list_eqb Nat.eqb v vis && Bool.eqb c b | None => false end.\n")
+           "  match walk (nextf g) stop (n + 1) [] start with Some (v, c) => list_eqb Nat.eqb v vis && Bool.eqb c b | None => false end.\n"
+           "Definition chf (g : list (nat * list nat)) (x : nat) : list nat := match find (fun p => fst p =? x) g with Some p => snd p | None => [] end.\n"
+           "Definition chk_enc (par : list (nat * nat)) (ch : list (nat * list nat)) (fuel : nat) (cases : list (nat * nat * bool)) : bool :=\n"
+           "  let fo := {| f_parent := nextf par; f_children := chf ch |} in\n"
+           "  forallb (fun t => match t with (o, s, b) => match encloses fo fuel o s with Some b' => Bool.eqb b' b | None => false end end) cases.\n")
 
 METHODS = ["textDocument/hover", "textDocument/definition", "textDocument/references", "textDocument/completion",
            "textDocument/implementation", "textDocument/rename", "textDocument/signatureHelp", "textDocument/documentHighlight"]
@@ -123,11 +127,57 @@ def catalogue(kind, n, split):
         for k in range(n):
             put("z%d.f90" % k, "submodule (sz%d) sz%d\n integer, pointer :: pz%d => pz%d\ncontains\n subroutine tz%d()\n  pz%d = 1\n end subroutine tz%d\nend submodule sz%d\n" % (
                 ring(n, k), k, k, ring(n, k), k, k, k, k))
+    # ---- self-reference through a dummy procedure's interface, INCLUDE inside a procedure, preprocessor #include rings
+    elif kind == "dummy_proc":
+        body = "module md\ncontains\n"
+        for k in range(n):
+            body += " subroutine sd%d(pd%d)\n  procedure(sd%d) :: pd%d\n  call pd%d(pd%d)\n end subroutine sd%d\n" % (k, k, ring(n, k), k, k, k, k)
+        put("d.f90", body + "end module md\n")
+    elif kind == "dummy_result":
+        body = "module mr\ncontains\n"
+        for k in range(n):
+            body += " function fr%d(pr%d) result(rr%d)\n  procedure(fr%d) :: pr%d\n  procedure(fr%d), pointer :: rr%d\n  rr%d => pr%d\n end function fr%d\n" % (
+                k, k, k, ring(n, k), k, ring(n, k), k, k, k, k)
+        put("r.f90", body + "end module mr\n")
+    elif kind == "include_nested":
+        # every second file carries its INCLUDE inside a procedure, the others at top level
+        for k in range(n):
+            if k % 2 == 0:
+                put("j%d.f90" % k, "integer :: vj%d\nsubroutine sj%d()\n include 'j%d.f90'\n vj%d = 1\nend subroutine sj%d\n" % (k, k, ring(n, k), k, k))
+            else:
+                put("j%d.f90" % k, "integer :: vj%d\ninclude 'j%d.f90'\n" % (k, ring(n, k)))
+    elif kind == "include_nested_all":
+        for k in range(n):
+            put("k%d.f90" % k, "integer :: vk%d\nsubroutine sk%d()\n include 'k%d.f90'\n vk%d = 1\nend subroutine sk%d\n" % (k, k, ring(n, k), k, k))
+    elif kind == "submodule_x_interface":
+        # submodules naming each other as parent next to a healthy module whose separate module procedures are searched for their
+        # bodies (one body in a child submodule, one in a grandchild, one missing)
+        for k in range(n):
+            put("t%d.f90" % k, "submodule (st%d) st%d\ncontains\n subroutine tt%d()\n end subroutine tt%d\nend submodule st%d\n" % (ring(n, k), k, k, k, k))
+        put("geo.f90", "module geo\n implicit none\n interface\n  module subroutine area(r)\n   real :: r\n  end subroutine area\n"
+                       "  module subroutine rescale(r, f)\n   real :: r, f\n  end subroutine rescale\n"
+                       "  module subroutine deep(r)\n   real :: r\n  end subroutine deep\n end interface\nend module geo\n")
+        put("geo_a.f90", "submodule (geo) geo_a\ncontains\n module subroutine area(r)\n  real :: r\n  r = 1.0\n end subroutine area\nend submodule geo_a\n")
+        put("geo_b.f90", "submodule (geo:geo_a) geo_b\ncontains\n module subroutine deep(r)\n  real :: r\n  r = 2.0\n end subroutine deep\nend submodule geo_b\n")
+        put("geo_main.f90", "program pg\n use geo\n real :: radius\n call area(radius)\n call rescale(radius, 2.0)\n call deep(radius)\nend program pg\n")
+    elif kind == "include_twice":
+        # f is included by two procedures (of g and of h) and itself includes g from inside a procedure; the file names decide the
+        # order of resolution (the first permutation builds a stale child link that only the children direction of the guard sees)
+        nf, ng, nh = [("w3.f90", "w2.f90", "w1.f90"), ("w1.f90", "w2.f90", "w3.f90"), ("w2.f90", "w3.f90", "w1.f90"), ("w3.f90", "w1.f90", "w2.f90")][n - 1]
+        put(nf, "integer :: xf\nsubroutine dw()\n include '%s'\n xf = 1\nend subroutine dw\n" % ng)
+        put(ng, "integer :: xg\nsubroutine ew1()\n include '%s'\n xg = 1\nend subroutine ew1\n" % nf)
+        put(nh, "integer :: xh\nsubroutine ew2()\n include '%s'\n xh = 1\nend subroutine ew2\n" % nf)
+    elif kind == "pp_include":
+        # headers that include each other without guards, two #include lines per file
+        for k in range(n):
+            put("h%d.h" % k, '#include "h%d.h"\n#define HH%d %d\n#include "h%d.h"\n' % (ring(n, k), k, k, ring(n, k)))
+        put("main_h.F90", '#include "h0.h"\nprogram ph\n integer :: vh\n vh = HH0\nend program ph\n')
     return files
 
 
 KINDS = ["use", "extends", "submodule", "pointer", "procptr", "associate", "binding", "include",
-         "submodule_tail", "extends_tail", "pointer_tail", "pointer_x_use", "procptr_x_use", "pointer_x_submodule"]
+         "submodule_tail", "extends_tail", "pointer_tail", "pointer_x_use", "procptr_x_use", "pointer_x_submodule",
+         "dummy_proc", "dummy_result", "include_nested", "include_nested_all", "include_twice", "pp_include", "submodule_x_interface"]
 
 
 def identifiers(text):
@@ -177,6 +227,7 @@ def run_workspace(ctx, kind, n, split, coq_exprs, coq_meta):
                         if r is None or r[0] == "e" or dt > 2.0:
                             bad.append((m, name, (li, ch), (r[3] if r and r[0] == "e" else "no answer" if r is None else "slow %.1fs" % dt)))
             correspondence(srv, coq_exprs, coq_meta, (kind, n, split))
+            forest_correspondence(ctx, srv, coq_exprs, coq_meta, (kind, n, split), files)
         except Timeout:
             ARMED[0] = False
             bad.append(("timeout", None, None, "workspace took more than 60 s (endless loop / unbounded recursion)"))
@@ -268,6 +319,72 @@ def correspondence(srv, exprs, meta, tag):
                     meta.append((tag, "is_linked_from", o.name + "/" + w.name))
 
 
+def forest_correspondence(ctx, srv, exprs, meta, tag, files):
+    """the scope graph after INCLUDE resolution: no cycle in the parent links nor in the children lists (the invariant of
+    C20.Forest, observed), and ast.encloses on the real objects = Shared.Walks.encloses on the extracted graph"""
+    objs = []
+
+    def idx(o):
+        for i, x in enumerate(objs):
+            if x is o:
+                return i
+        objs.append(o)
+        return len(objs) - 1
+    for f in srv.workspace.values():
+        ast = f.ast
+        for sc in list(ast.scope_list) + [x for x in (ast.none_scope, ast.inc_scope) if x is not None]:
+            idx(sc)
+    k = 0
+    while k < len(objs):          # close under parent and children
+        o = objs[k]
+        if getattr(o, "parent", None) is not None:
+            idx(o.parent)
+        for c in getattr(o, "children", None) or []:
+            idx(c)
+        k += 1
+    n = len(objs)
+    par = [(i, idx(o.parent)) for i, o in enumerate(objs) if getattr(o, "parent", None) is not None]
+    ch = [(i, [idx(c) for c in (getattr(o, "children", None) or [])]) for i, o in enumerate(objs)]
+    ch = [(i, l) for (i, l) in ch if l]
+    # observed invariant
+    pmap, cmap = dict(par), dict(ch)
+    for i in range(n):
+        cur, steps = pmap.get(i), 0
+        while cur is not None and cur != i and steps <= n:
+            cur, steps = pmap.get(cur), steps + 1
+        seen, stack, cyc = set(), list(cmap.get(i, [])), False
+        while stack:
+            x = stack.pop()
+            if x == i:
+                cyc = True
+                break
+            if x not in seen:
+                seen.add(x); stack.extend(cmap.get(x, []))
+        if cur == i or steps > n or cyc:
+            ctx.report("C20:scope-graph-cycle", "after INCLUDE resolution the scope '%s' is its own %s" % (objs[i].name, "descendant" if cyc else "ancestor"),
+                       {"kind": "counterexample", "input": {"cycle": tag[0], "length": tag[1], "split": tag[2], "files": files},
+                        "implementation": {"parent": par, "children": ch, "object": i}})
+            return
+    try:
+        from fortls.parsers.internal.ast import encloses as impl_encloses
+    except ImportError:
+        if ctx.extra.get("encloses_missing"):
+            return
+        ctx.extra["encloses_missing"] = True
+        ctx.report("C20:encloses-missing", "fortls.parsers.internal.ast.encloses (the guard of resolve_includes) is gone",
+                   {"kind": "broken-correspondence", "correspondence": "FV.Shared.Walks.encloses vs fortls.parsers.internal.ast.encloses"}, found_input=False)
+        return
+    pairs = [(i, j) for i in range(n) for j in range(n)]
+    if len(pairs) > 120:
+        pairs = ctx.rng.sample(pairs, 120)
+    cases = [(i, j, bool(impl_encloses(objs[i], objs[j]))) for (i, j) in pairs]
+    deg = max([len(l) for (_, l) in ch] + [0])
+    exprs.append("chk_enc %s %s %s %s" % (
+        clist(par, lambda p: "(%s, %s)" % (cnat(p[0]), cnat(p[1]))), clist(ch, lambda p: "(%s, %s)" % (cnat(p[0]), clist(p[1], cnat))),
+        cnat(n * (deg + 1) + 2), clist(cases, lambda t: "(%s, %s, %s)" % (cnat(t[0]), cnat(t[1]), "true" if t[2] else "false"))))
+    meta.append((tag, "ast.encloses", "%d objects, %d pairs" % (n, len(cases))))
+
+
 def search_failing(ctx):
     return None
 
@@ -282,7 +399,9 @@ def run(ctx):
         "the walks are modelled by their recursion skeleton; what they compute along the way is not part of the termination theorems",
         "'bounded time' is observed (2 s per request, 60 s per workspace), the theorems bound the number of steps by the number of objects",
     ]
-    ctx.cov["rule"] = ("catalogue: 8 cycle kinds (USE, EXTENDS, submodule ancestry, pointer, procedure pointer, ASSOCIATE, type-bound binding, INCLUDE) "
+    ctx.cov["rule"] = ("catalogue: %d cycle kinds (USE, EXTENDS, submodule ancestry, pointer, procedure pointer, ASSOCIATE, type-bound binding, INCLUDE, lassos entering a "
+                       "cycle from outside, link cycles laid over USE/ancestry cycles, dummy procedures whose interface is the enclosing procedure, INCLUDE inside "
+                       "procedures, unguarded #include rings) " % len(KINDS) +
                        "x lengths 1-4 x one file or one unit per file; every identifier occurrence x 8 position-based methods; "
                        "non-trivial: all; distinct by (kind, length, placement)")
     ctx.proof_obligations(search=lambda: search_failing(ctx))
